@@ -728,6 +728,7 @@ func init() {
 			c.HarnessError("strace not found")
 			return
 		}
+		famCrash.Timeout = 120 * time.Minute
 		famCrash.Each(c, 8, func(emit func(crashCase)) {
 			for _, tree := range []string{"flat", "nested"} {
 				for _, d := range []string{"compress", "decompress"} {
